@@ -294,9 +294,6 @@ func cmdCheck(args []string) int {
 			}
 			j := manyJob{Index: i, Harness: o.Harness, Params: r.params, Solver: o.Solver, Timeout: r.tier.Timeout,
 				MaxPaths: r.tier.MaxPaths, MaxSteps: r.tier.MaxSteps, Budget: budget, Preempt: pre, Witness: r.wit}
-			if !r.wit {
-				j.Covers = o.Covers
-			}
 			w := ws[(len(idxs)-1-n)%nw]
 			w.mf.Jobs = append(w.mf.Jobs, j)
 			w.bd += bd + 30*time.Second
@@ -463,10 +460,6 @@ func cmdCheck(args []string) int {
 			lines = append(lines, fmt.Sprintf("INCONCLUSIVE property=%s obligation=%s reason=engine error: %s", id, r.label, oneLine(r.res.Error)))
 			continue
 		}
-		for _, m := range r.res.MissingCover {
-			nIncon++
-			lines = append(lines, fmt.Sprintf("INCONCLUSIVE property=%s obligation=%s reason=cover label %q never reached (vacuity guard)", id, r.label, m))
-		}
 		for _, inc := range r.res.Inconclusive {
 			nIncon++
 			lines = append(lines, fmt.Sprintf("INCONCLUSIVE property=%s obligation=%s reason=%s", id, r.label, oneLine(inc)))
@@ -503,6 +496,39 @@ func cmdCheck(args []string) int {
 			lines = append(lines, fmt.Sprintf("VIOLATION property=%s replay=%s", id, path))
 			lines = append(lines, fmt.Sprintf("  obligation=%s kind=%s msg=%q native=%s", r.label, v.Kind, oneLine(v.Msg), v.Replayed))
 			exit = 1
+		}
+	}
+	// vacuity guard: every cover label of an obligation must be reached by some run of it
+	reached := map[string]map[string]bool{}
+	complete := map[string]bool{}
+	for _, r := range runs {
+		if r.wit {
+			continue
+		}
+		if reached[r.obl.ID] == nil {
+			reached[r.obl.ID] = map[string]bool{}
+			complete[r.obl.ID] = true
+		}
+		if r.res == nil {
+			complete[r.obl.ID] = false
+			continue
+		}
+		for c, n := range r.res.Covers {
+			if n > 0 {
+				reached[r.obl.ID][c] = true
+			}
+		}
+	}
+	for i := range spec.Obligations {
+		o := &spec.Obligations[i]
+		if reached[o.ID] == nil {
+			continue
+		}
+		for _, c := range o.Covers {
+			if !reached[o.ID][c] {
+				nIncon++
+				lines = append(lines, fmt.Sprintf("INCONCLUSIVE property=%s obligation=%s reason=cover label %q never reached by any run (vacuity guard)", id, o.ID, c))
+			}
 		}
 	}
 	for _, d := range sampleDisagree {
